@@ -361,8 +361,8 @@ func eigenRoutines() []*lroutine {
 				vars := map[string]int{"n": n, "ncvt": ncvt, "nru": nru, "ncc": ncc}
 				w, ok := docMin("lapack/gonum/dbdsqr.go", "Dbdsqr", reBdsqrWork, vars)
 				if m := reBdsqrWork2.FindStringSubmatch(docOf("lapack/gonum/dbdsqr.go", "Dbdsqr")); !ok && m != nil {
-					ex := m[2]
-					if ncvt == 0 && nru == 0 && ncc == 0 {
+					ex := m[3]
+					if ncvt == 0 && nru == 0 && ncc == 0 && (m[2] == "" || n > 1) {
 						ex = m[1]
 					}
 					if v, err := evalExpr(ex, vars); err == nil {
